@@ -330,6 +330,40 @@ func c18BatchJSON(c *core.Ctx, pkg *packages.Package) {
 	for _, k := range an.SortedKeys(pairs) {
 		c.Check(got[k] == pairs[k], "C18.batchjson", "UnmarshalJSON#"+k, unmarshal.Decl.Pos(), "%s must receive the recorded %s (receives %q)", k, pairs[k], got[k])
 	}
+	// per-point values are computed in the iteration of their point: no argument of the per-point constructor is a variable that
+	// lives across iterations and is assigned inside the loop (it would keep the previous point's value when this point's guard fails)
+	nPer := 0
+	ast.Inspect(unmarshal.Decl.Body, func(n ast.Node) bool {
+		var body *ast.BlockStmt
+		switch x := n.(type) {
+		case *ast.RangeStmt:
+			body = x.Body
+		case *ast.ForStmt:
+			body = x.Body
+		default:
+			return true
+		}
+		ast.Inspect(body, func(m ast.Node) bool {
+			call, ok := m.(*ast.CallExpr)
+			if !ok {
+				return true
+			}
+			if f := core.Callee(info, call); f == nil || f.Name() != "NewBatchPointMessage" {
+				return true
+			}
+			nPer++
+			for _, a := range call.Args {
+				if v := loopCarried(info, body, a); v != "" {
+					c.Fail("C18.batchjson", "UnmarshalJSON#per-point-values", a.Pos(), "the value %s given to the replayed point is kept in a variable declared outside the loop over the points and assigned inside it: a point for which the assignment's guard fails is built with the previous point's value (a recorded point without tags of its own gets the tags of the point before it instead of the batch's)", v)
+					return true
+				}
+			}
+			c.Ok("C18.batchjson", "UnmarshalJSON#per-point-values")
+			return true
+		})
+		return true
+	})
+	c.Floor("C18.batchjson", "per-point constructor calls in UnmarshalJSON's loop", nPer, 1)
 	// the writer takes them from the same accessors
 	wflat := map[string]string{}
 	ast.Inspect(marshal.Decl.Body, func(n ast.Node) bool {
@@ -1078,4 +1112,65 @@ func c18Codec(c *core.Ctx, root, edgePkg *packages.Package) {
 			}
 		}
 	}
+}
+
+// loopCarried names a variable used in e that is declared outside the loop body and assigned inside it without being assigned
+// unconditionally, as a top-level statement of the body, before the use: its value may come from an earlier iteration.
+// Accumulators (x = append(x, …), x += …) are what loops are for and are not reported when e is not built from them.
+func loopCarried(info *types.Info, body *ast.BlockStmt, e ast.Expr) string {
+	found := ""
+	ast.Inspect(e, func(n ast.Node) bool {
+		id, ok := n.(*ast.Ident)
+		if !ok || found != "" {
+			return found == ""
+		}
+		v, ok := info.Uses[id].(*types.Var)
+		if !ok || v.IsField() || (body.Pos() <= v.Pos() && v.Pos() <= body.End()) || v.Pkg() == nil || v.Parent() == v.Pkg().Scope() {
+			return true
+		}
+		assignedInside, resetFirst := false, false
+		for _, st := range body.List {
+			if st.End() > e.Pos() && st.Pos() <= e.Pos() {
+				break // the statement that contains the use
+			}
+			if as, ok := st.(*ast.AssignStmt); ok {
+				for _, l := range as.Lhs {
+					if lid, ok := l.(*ast.Ident); ok && info.Uses[lid] == v {
+						resetFirst = true
+					}
+				}
+			}
+			if resetFirst {
+				break
+			}
+			ast.Inspect(st, func(m ast.Node) bool {
+				if as, ok := m.(*ast.AssignStmt); ok {
+					for _, l := range as.Lhs {
+						if lid, ok := l.(*ast.Ident); ok && info.Uses[lid] == v {
+							assignedInside = true
+						}
+					}
+				}
+				return true
+			})
+		}
+		if !resetFirst && !assignedInside {
+			// assigned later in the body (after the use)?
+			ast.Inspect(body, func(m ast.Node) bool {
+				if as, ok := m.(*ast.AssignStmt); ok {
+					for _, l := range as.Lhs {
+						if lid, ok := l.(*ast.Ident); ok && info.Uses[lid] == v {
+							assignedInside = true
+						}
+					}
+				}
+				return true
+			})
+		}
+		if assignedInside && !resetFirst {
+			found = id.Name
+		}
+		return true
+	})
+	return found
 }
